@@ -666,6 +666,19 @@ def language_pitfall_rules(ctx, rule, paths, only=None):
                                 if (isinstance(x, ast.Constant) and not isinstance(x.value, bool) and x.value is not None and x.value is not Ellipsis) or \
                                         (isinstance(x, (ast.Tuple, ast.List, ast.Dict, ast.Set, ast.JoinedStr))):
                                     bad_is.append('%s (line %d)' % (norm(c)[:50], c.lineno))
+            # `[Obj()] * n` / `[[]] * n` / `[{}] * n`: n references to ONE object - setting a field of one element sets it in all
+            aliased = []
+            for c in walk_own(f.node):
+                if isinstance(c, ast.BinOp) and isinstance(c.op, ast.Mult):
+                    for lst in (c.left, c.right):
+                        if isinstance(lst, (ast.List, ast.Tuple)) and any(
+                                isinstance(e, (ast.List, ast.Dict, ast.Set)) or
+                                (isinstance(e, ast.Call) and (dotted(e.func) or '').split('.')[-1][:1].isupper() and (dotted(e.func) or '').split('.')[-1] not in ('Decimal', 'Fraction')) or
+                                (isinstance(e, ast.Call) and (dotted(e.func) or '') in ('list', 'dict', 'set', 'bytearray'))
+                                for e in lst.elts):
+                            aliased.append('%s (line %d)' % (norm(c)[:50], c.lineno))
+            n += 1
+            ctx.inst(rule, f, 'no-aliased-elements-by-list-multiplication', not aliased, 'a list built by multiplying a one-element list holds the SAME object in every position: %s' % aliased)
             n += 1
             ctx.inst(rule, f, 'no-identity-test-with-a-literal', not bad_is, 'identity comparison with a literal value: %s - equal values need not be the same object' % bad_is)
             late = []
